@@ -2280,8 +2280,7 @@ int32_t checkPathLenConstraint(psX509Cert_t *ic,
           Subtract one from pathLen in this case since one got
           added when it was truly just self-authenticating.
         */
-        if (sc->sigHashLen == ic->sigHashLen &&
-                memcmpct(sc->sigHash, ic->sigHash, sc->sigHashLen) == 0)
+        if (psX509IsSameCert(sc, ic))
         {
             if (pathLen > 0)
             {
